@@ -27,15 +27,20 @@ struct IN {
  * symbolic size needs buffers of that size) ---- */
 static unsigned calls;
 static int      over_limit;
+/* WHICH >= 20: too-short inputs to the open/decrypt entry points.  The input is a heap object of EXACTLY the presented
+ * length (symbolic, below the documented minimum): the call must return -1 without reading it (CBMC bounds checks),
+ * without reaching any core (over_limit = 1 makes every recorder fail) and without touching the output. */
 #ifdef REPLAY
-# define REC() do { if (over_limit) { printf("REPLAY-FAIL: request above the documented limit reaches the cores\n"); exit(1); } printf("REPLAY-END-REACHED core reached in range\n"); exit(0); } while (0)
+# define REC() do { if (over_limit) { printf("REPLAY-FAIL: request above the documented limit / below the documented minimum reaches the cores\n"); exit(1); } printf("REPLAY-END-REACHED core reached in range\n"); exit(0); } while (0)
 #else
 static void
 core_reached(void)
 {
     calls++;
-    CHECK(!over_limit, "a request above the documented limit reaches the cores");
+    CHECK(!over_limit, "a request above the documented limit (WHICH < 20) / an input below the documented minimum length (WHICH >= 20) reaches the cores");
+#if WHICH < 20
     WITNESS_AT("core reached by an in-range request");
+#endif
     __CPROVER_assume(0);
 }
 # define REC() core_reached()
@@ -60,6 +65,10 @@ int crypto_onetimeauth_poly1305(unsigned char *out, const unsigned char *in, uns
 int crypto_onetimeauth_poly1305_verify(const unsigned char *h, const unsigned char *in, unsigned long long inlen, const unsigned char *k) { REC(); return 0; }
 int crypto_scalarmult_curve25519(unsigned char *q, const unsigned char *n, const unsigned char *p) { REC(); return 0; }
 int crypto_scalarmult_curve25519_base(unsigned char *q, const unsigned char *n) { REC(); return 0; }
+int crypto_generichash(unsigned char *out, size_t outlen, const unsigned char *in, unsigned long long inlen, const unsigned char *key, size_t keylen) { REC(); return 0; }
+int crypto_generichash_init(crypto_generichash_state *state, const unsigned char *key, const size_t keylen, const size_t outlen) { REC(); return 0; }
+int crypto_generichash_update(crypto_generichash_state *state, const unsigned char *in, unsigned long long inlen) { REC(); return 0; }
+int crypto_generichash_final(crypto_generichash_state *state, unsigned char *out, const size_t outlen) { REC(); return 0; }
 int sodium_runtime_has_aesni(void) { return 0; }
 int sodium_runtime_has_avx(void) { return 0; }
 int sodium_runtime_has_armcrypto(void) { return 0; }
@@ -97,7 +106,69 @@ VERIF_MAIN
     unsigned char      tag;
 
     memset(&st, 0, sizeof st);
-#if WHICH == 3
+#if WHICH >= 20
+    {
+# if WHICH == 25 || WHICH == 26
+        const uint64_t minlen = 48;     /* crypto_box_SEALBYTES = 32 (ephemeral public key) + 16 (tag) */
+# elif WHICH == 30 || WHICH == 31
+        const uint64_t minlen = 32;     /* AEGIS tag */
+# elif WHICH == 32
+        const uint64_t minlen = 17;     /* secretstream: 1 (encrypted tag byte) + 16 */
+# else
+        const uint64_t minlen = 16;     /* Poly1305 tag */
+# endif
+        uint8_t *c, out[8];
+        int      r;
+        ASSUME(in.len < minlen);
+        c = malloc(in.len);
+        ASSUME(c != NULL);
+        memset(out, 0x5a, sizeof out);
+        l = 0x1234;
+        over_limit = 1;                 /* any recorder reached = failure */
+        verif_misuse_expected = 0;
+# if WHICH == 20
+        r = crypto_secretbox_open_easy(out, c, in.len, n, k);
+# elif WHICH == 21
+        r = crypto_secretbox_xchacha20poly1305_open_easy(out, c, in.len, n, k);
+# elif WHICH == 22
+        r = crypto_box_open_easy(out, c, in.len, n, pk, sk);
+# elif WHICH == 23
+        r = crypto_box_open_easy_afternm(out, c, in.len, n, k);
+# elif WHICH == 24
+        r = crypto_box_curve25519xchacha20poly1305_open_easy(out, c, in.len, n, pk, sk);
+# elif WHICH == 25
+        r = crypto_box_seal_open(out, c, in.len, pk, sk);
+# elif WHICH == 26
+        r = crypto_box_curve25519xchacha20poly1305_seal_open(out, c, in.len, pk, sk);
+# elif WHICH == 27
+        r = crypto_aead_chacha20poly1305_decrypt(out, &l, NULL, c, in.len, b, 5, n, k);
+# elif WHICH == 28
+        r = crypto_aead_chacha20poly1305_ietf_decrypt(out, &l, NULL, c, in.len, b, 5, n, k);
+# elif WHICH == 29
+        r = crypto_aead_xchacha20poly1305_ietf_decrypt(out, &l, NULL, c, in.len, b, 5, n, k);
+# elif WHICH == 30
+        r = crypto_aead_aegis128l_decrypt(out, &l, NULL, c, in.len, b, 5, n, k);
+# elif WHICH == 31
+        r = crypto_aead_aegis256_decrypt(out, &l, NULL, c, in.len, b, 5, n, k);
+# elif WHICH == 32
+        r = crypto_secretstream_xchacha20poly1305_pull(&st, out, &l, &tag, c, in.len, b, 5);
+# endif
+        CHECK(r == -1, "input shorter than the documented minimum is rejected with -1");
+        CHECK(calls == 0, "no core is reached for a too-short input");
+        {
+            unsigned i, same = 1;
+            for (i = 0; i < sizeof out; i++) {
+                same &= out[i] == 0x5a;
+            }
+            CHECK(same, "output untouched for a too-short input");
+        }
+# if WHICH >= 27 && WHICH <= 31
+        CHECK(l == 0, "AEAD decrypt reports message length 0 on rejection");
+# endif
+        WITNESS();
+        goto done;
+    }
+#elif WHICH == 3
     verif_misuse_expected = over_limit = (in.len > LIM_SIZE16);
     crypto_aead_chacha20poly1305_encrypt(b, &l, b, in.len, b, 0, NULL, n, k);
 #elif WHICH == 4
@@ -129,7 +200,7 @@ VERIF_MAIN
     crypto_secretstream_xchacha20poly1305_push(&st, b, &l, b, in.len, b, 0, 0);
 #elif WHICH == 13
     /* pull: inlen < ABYTES is an error return, not a misuse */
-    __CPROVER_assume(in.len >= 17);
+    ASSUME(in.len >= 17);
     verif_misuse_expected = over_limit = (in.len - 17 > LIM_SS);
     crypto_secretstream_xchacha20poly1305_pull(&st, b, &l, &tag, b, in.len, b, 0);
 #elif WHICH == 14
